@@ -276,8 +276,10 @@ def std_tys():
     return int_t, FLOAT_T, STRING_T
 
 
-def build_value(v):
-    """Object-view value term -> Python value through the helper classes."""
+def build_value(v, once=False):
+    """Object-view value term -> Python value through the helper classes. once=True passes one-shot iterators wherever the
+    constructor's signature says Iterable (Left / Right / Sum): the value must be the same."""
+    it = (lambda xs: iter(list(xs))) if once else (lambda xs: xs)
     from hugr import val
     from hugr.build.dfg import Dfg
     from hugr.std.collections.array import ArrayVal
@@ -302,21 +304,23 @@ def build_value(v):
     if k == "UnitSum":
         return val.UnitSum(v["tag"], v["size"])
     if k == "Some":
-        return val.Some(*[build_value(x) for x in v["vs"]])
+        return val.Some(*[build_value(x, once) for x in v["vs"]])
     if k == "None":
         return val.None_(*build_row(v["tys"]))
     if k == "Left":
-        return val.Left([build_value(x) for x in v["vs"]], build_row(v["tys"]))
+        return val.Left(it([build_value(x, once) for x in v["vs"]]), it(build_row(v["tys"])))
     if k == "Right":
-        return val.Right(build_row(v["tys"]), [build_value(x) for x in v["vs"]])
+        return val.Right(it(build_row(v["tys"])), it([build_value(x, once) for x in v["vs"]]))
     if k == "Tuple":
-        return val.Tuple(*[build_value(x) for x in v["vs"]])
+        return val.Tuple(*[build_value(x, once) for x in v["vs"]])
     if k == "Sum":
-        return val.Sum(v["tag"], build_type(v["typ"]), [build_value(x) for x in v["vs"]])
+        return val.Sum(v["tag"], build_type(v["typ"]), it([build_value(x, once) for x in v["vs"]]))
     if k == "Function":
         row = build_row(v["sig"]["input"])
         d = Dfg(*row)
         d.set_outputs(*d.inputs())
+        if v["sig"].get("runtime_reqs"):         # the body's root DFG declares extension requirements
+            d.parent_op._extension_delta = list(v["sig"]["runtime_reqs"])
         if "first" in v:            # same object, body re-assigned after its type was inspected
             d0 = Dfg(*build_row(v["first"]))
             d0.set_outputs(*d0.inputs())
@@ -409,6 +413,22 @@ def build_sugar_op(o):
         return ops.Some(*build_row(o["tys"]))
     cls = {"Left": ops.Left, "Right": ops.Right, "Continue": ops.Continue, "Break": ops.Break}[k]
     return cls(tys.Either(build_row(o["left"]), build_row(o["right"])))
+
+
+def infer_partial_op(o, obj):
+    """The same operation obtained the way builder programs obtain it: an argument-less partial op (CallIndirect(), MakeTuple(),
+    UnpackTuple(), Noop()) placed with add_op on wires of the right types, its types inferred by `_set_in_types`. Returns None when
+    the term is not one of these."""
+    from hugr import ops
+    from hugr.build.dfg import Dfg
+    k = o["op"]
+    fresh = {"CallIndirect": ops.CallIndirect, "MakeTuple": ops.MakeTuple, "UnpackTuple": ops.UnpackTuple, "Noop": ops.Noop}.get(k)
+    if fresh is None:
+        return None
+    ins = list(obj.outer_signature().input)
+    d = Dfg(*ins)
+    n = d.add_op(fresh(), *d.inputs())
+    return d.hugr[n].op
 
 
 def dec_op(w):
